@@ -5,6 +5,7 @@ TODO: Handle sys.argv
 
 """
 
+import ast
 import sys
 import io
 import threading
@@ -750,7 +751,13 @@ class Sandbox:
         if isinstance(value, SandboxVariable):
             return value.name
         if len(repr(value)) <= self.MAXIMUM_TEMPORARY_LENGTH:
-            return repr(value)
+            # Only values whose repr is a Python literal can be passed as
+            # source text (float('inf') prints as the undefined name inf).
+            try:
+                ast.literal_eval(repr(value))
+                return repr(value)
+            except (ValueError, SyntaxError, MemoryError, RecursionError, TypeError):
+                pass
         key = '_temporary_{}_{}'.format(category, name)
         if key in self.data:
             self._backup_variables[key] = self.data[key]
